@@ -79,6 +79,8 @@ func tokRegex(t PatTok, consts map[string]*Const) string {
 		return grp(`\S+`)
 	case "abc":
 		return grp(`[a-c]+`)
+	case "ts":
+		return grp(`\d+T\d+:\d+`)
 	case "const":
 		if c := consts[t.Lit]; c != nil {
 			return c.Re
@@ -272,6 +274,13 @@ func (m *Metric) DeclSource() string {
 	}
 	if m.Limit > 0 {
 		sb.WriteString(" limit " + strconv.Itoa(m.Limit))
+	}
+	if len(m.Buckets) > 0 {
+		var bs []string
+		for _, b := range m.Buckets {
+			bs = append(bs, strconv.FormatFloat(b, 'f', -1, 64))
+		}
+		sb.WriteString(" buckets " + strings.Join(bs, ", "))
 	}
 	return sb.String()
 }
